@@ -16,12 +16,13 @@
 
   Values are an arbitrary type with decidable equality: Python's `==`, hashing and dask tokenize
   are assumed to agree (NaN is outside; the harness tests it for well-formedness only).
-  What is proved about the per-dump list: indexing, comparison, the constructor, remove_repeats,
-  concatenate, partition, partition ∘ concatenate, add, remove.  For add_unmatched and align the
-  theorems give well-formedness, the number of dumps and (align) boundaries ⊆ segment starts; their
-  per-dump effect is compared with the implementation by the harness only (said in the claim).
+  What is proved about the per-dump list: indexing, comparison, the constructor, add (with and
+  without a value), remove, add_unmatched, remove_repeats, concatenate, partition,
+  partition ∘ concatenate.  For align the theorems give well-formedness for arbitrary segments and
+  boundaries ⊆ segment starts; which value each aligned segment carries is compared with the
+  implementation by the harness only (said in the claim).
 -/
-import KatdalModel.Lemmas.CatWF
+import KatdalModel.Lemmas.CatRemove
 open Np Categorical
 
 namespace C11
@@ -100,6 +101,31 @@ theorem c11_partition_concat_id (c : Cat V) (h : c.Part) (s1 : Nat) (ss : List N
     ∃ parts c', c.partition (0 :: s1 :: ss) = .ok parts ∧ concatenate parts rep = .ok c' ∧
       c'.Part ∧ c'.perDump = c.perDump ∧ c'.numDumps = c.numDumps :=
   partition_concat_id c h s1 ss hs hN rep
+
+/-- **add(event, value) overrides the per-dump list on `[event, next boundary)`** and leaves every
+    other dump unchanged (value already known or new; event inside the series). -/
+theorem c11_add_perDump (c : Cat V) (h : c.WF) (e : Nat) (v : V) (he : e < c.numDumps) (c' : Cat V)
+    (hadd : c.add e (some v) = .ok c') :
+    c'.perDump = c.perDump.take e ++
+      List.replicate ((c.ev.filter (fun x => decide (e < x))).headD 0 - e) (some v) ++
+      c.perDump.drop ((c.ev.filter (fun x => decide (e < x))).headD 0) :=
+  add_perDump c h e v he c' hadd
+
+/-- **add(event) without a value** (duplicate the current value) changes no dump's value. -/
+theorem c11_add_none_perDump (c : Cat V) (h : c.WF) (e : Nat) (c' : Cat V) (hadd : c.add e none = .ok c') :
+    c'.perDump = c.perDump :=
+  add_none_perDump c h e c' hadd
+
+/-- **add_unmatched changes no dump's value.** -/
+theorem c11_add_unmatched_perDump (c : Cat V) (h : c.WF) (segs : List Nat) (dist : Nat) (c' : Cat V)
+    (hau : c.addUnmatched segs dist = .ok c') : c'.perDump = c.perDump :=
+  addUnmatched_perDump c h segs dist c' hau
+
+/-- **remove(value)**: every dump that carried the value takes the value of the last earlier dump
+    that did not (nothing if there is none), all other dumps keep their value. -/
+theorem c11_remove_perDump (c : Cat V) (h : c.WF) (v : V) (c' : Cat V) (hrem : c.remove v = .ok c') :
+    c'.perDump = fillPrevG (some v) none c.perDump :=
+  remove_perDump c h v c' hrem
 
 /-- **Alignment only moves boundaries onto the given segment starts.** -/
 theorem c11_align_boundaries (c : Cat V) (segs : List Nat) (c' : Cat V) (h : c.align segs = .ok c') :
@@ -191,6 +217,11 @@ example : ((Cat.new [3, 4, 3, 5] [0, 2, 5, 6, 9]).partition [0, 4, 9]).map (fun 
 example : (do let ps ← (Cat.new [3, 4, 3, 5] [0, 2, 5, 6, 9]).partition [0, 4, 9]
               let c ← concatenate ps false
               pure c.perDump) = .ok (Cat.new [3, 4, 3, 5] [0, 2, 5, 6, 9]).perDump := by decide
+-- add overrides [3, 5): dumps 3 and 4 take the new value 7
+example : ((Cat.new [3, 4, 3, 5] [0, 2, 5, 6, 9]).add 3 (some 7)).map Cat.perDump =
+    .ok [some 3, some 3, some 4, some 7, some 7, some 3, some 5, some 5, some 5] := by decide
+example : fillPrevG (some 3) none [some 3, some 3, some 4, some 4, some 4, some 3, some 5, some 5, some 5] =
+    [none, none, some 4, some 4, some 4, some 4, some 5, some 5, some 5] := by decide
 -- remove the first value: the first dumps lose their value, later segments merge
 example : ((Cat.new [3, 4, 3, 5] [0, 2, 5, 6, 9]).remove 3).map Cat.perDump =
     .ok [none, none, some 4, some 4, some 4, some 4, some 5, some 5, some 5] := by decide
